@@ -3204,3 +3204,111 @@ func sweepOpenField(p *packages.Package) string {
 	}
 	return name
 }
+
+// E9PendingPerSubpath: the pending end-point hit does not outlive the sub-path it belongs to.
+func E9PendingPerSubpath(c *core.Ctx, r *core.Report) {
+	r.Rule("E9.pending-per-subpath", "the ray-casting counters (windings, Path.Crossings, Path.Windings) pair a hit at the end of one segment with the hit on the adjoining segment of the same sub-path through a pointer variable that takes the address of an element of the hit list (`&zs[i]`). The hit list is computed per sub-path. The variable therefore starts each sub-path empty: it is declared inside the body of the innermost loop (or function) in which the hit list is computed, or assigned nil in that body before the loop over the hits. Hoisted out of the loop over sub-paths, an unpaired hit left by one sub-path (an open one that ends level with the point) is paired with a vertex of the next, and a crossing is lost")
+	p := c.MustPkg("")
+	info := p.TypesInfo
+	n := 0
+	for _, fd := range core.AllFuncDecls(p) {
+		if fd.Body == nil || strings.HasSuffix(c.Fset.Position(fd.Pos()).Filename, "_test.go") {
+			continue
+		}
+		// pointer variables assigned &S[i] where S is a slice of Intersection
+		type pend struct {
+			v     types.Object
+			slice types.Object
+			pos   token.Pos
+		}
+		var ps []pend
+		ast.Inspect(fd.Body, func(m ast.Node) bool {
+			as, ok := m.(*ast.AssignStmt)
+			if !ok || len(as.Lhs) != 1 || len(as.Rhs) != 1 {
+				return true
+			}
+			u, ok := core.Unparen(as.Rhs[0]).(*ast.UnaryExpr)
+			if !ok || u.Op != token.AND {
+				return true
+			}
+			ie, ok := core.Unparen(u.X).(*ast.IndexExpr)
+			if !ok {
+				return true
+			}
+			sid, ok := core.Unparen(ie.X).(*ast.Ident)
+			lid, ok2 := as.Lhs[0].(*ast.Ident)
+			if !ok || !ok2 {
+				return true
+			}
+			t := info.TypeOf(sid)
+			sl, isSl := t.Underlying().(*types.Slice)
+			if !isSl {
+				return true
+			}
+			if nt, ok := sl.Elem().(*types.Named); !ok || nt.Obj().Name() != "Intersection" {
+				return true
+			}
+			for _, q := range ps {
+				if q.v == core.ObjOf(info, lid) {
+					return true
+				}
+			}
+			ps = append(ps, pend{core.ObjOf(info, lid), core.ObjOf(info, sid), as.Pos()})
+			return true
+		})
+		for _, q := range ps {
+			if q.v == nil || q.slice == nil {
+				continue
+			}
+			n++
+			key := fmt.Sprintf("canvas.%s|pending hit `%s` starts empty for every hit list", core.FuncName(fd), q.v.Name())
+			// the block in which the slice is defined (its innermost enclosing loop body or the function body)
+			var home *ast.BlockStmt = fd.Body
+			var stack []ast.Node
+			ast.Inspect(fd.Body, func(m ast.Node) bool {
+				if m == nil {
+					stack = stack[:len(stack)-1]
+					return true
+				}
+				stack = append(stack, m)
+				if id, ok := m.(*ast.Ident); ok && info.Defs[id] == q.slice {
+					for i := len(stack) - 1; i >= 0; i-- {
+						switch l := stack[i].(type) {
+						case *ast.ForStmt:
+							home = l.Body
+							i = -1
+						case *ast.RangeStmt:
+							home = l.Body
+							i = -1
+						}
+					}
+				}
+				return true
+			})
+			inHome := home.Pos() <= q.v.Pos() && q.v.Pos() < home.End()
+			resetFirst := false
+			if !inHome {
+				// `v = nil` as a statement of the home block before the loop over the hits
+				for _, s := range home.List {
+					if as, ok := s.(*ast.AssignStmt); ok && len(as.Lhs) == 1 && len(as.Rhs) == 1 {
+						if lid, ok := as.Lhs[0].(*ast.Ident); ok && core.ObjOf(info, lid) == q.v {
+							if rid, ok := core.Unparen(as.Rhs[0]).(*ast.Ident); ok && rid.Name == "nil" {
+								resetFirst = true
+							}
+						}
+					}
+					if s.Pos() <= q.pos && q.pos < s.End() {
+						break
+					}
+				}
+			}
+			if inHome || resetFirst {
+				r.OK("E9.pending-per-subpath", key, c.Pos(q.pos), "")
+			} else {
+				r.Fail("E9.pending-per-subpath", key, c.Pos(q.pos), fmt.Sprintf("`%s` holds the address of an element of `%s`, which is computed anew in every iteration of the enclosing loop, but is declared outside that loop and not reset at its top: a hit left unpaired by one sub-path is paired with a hit of the next sub-path, which belongs to another contour, and that crossing is not counted", q.v.Name(), q.slice.Name()))
+			}
+		}
+	}
+	r.Count("E9.pending-per-subpath", n)
+	r.Floor("E9.pending-per-subpath", 2)
+}
